@@ -231,6 +231,9 @@ def generate(model: Model):
         pass
     try:
         mod, tree = _fresh("_expr")
+        for fn in (x for x in tree.body if isinstance(x, ast.FunctionDef) and x.name == "_length_determining_input"):
+            for st in (x for x in fn.body if isinstance(x, ast.If) and "_length_root" in ast.unparse(x.test)):
+                yield "mutant", "revert:len-of-label-matched-inputs", "R06g", mod.rel, _splice(mod.source, st.test, "True")
         for fn in (x for x in tree.body if isinstance(x, ast.FunctionDef) and x.name == "_is_row_aligned_input"):
             for st in (x for x in fn.body if isinstance(x, ast.Return) and "divisions" in ast.unparse(x)):
                 yield "mutant", "revert:head-tail-single-partition-row-aligned", "R01c", mod.rel, _splice(mod.source, st.value, "False")
